@@ -67,3 +67,231 @@ def c12_construct(tk, tn, tl, rk, rn, rl, sk, sn, dns, dew, mns, mew):
                      f'expected {exp!r}; from_twprgesec(...) attribute diffs (observed, expected): {diffs}; eq/hash ok: {eq}')
     finally:
         MC.default_ns, MC.default_ew = save
+
+
+# ------------------------------------------------------------------ C17
+def _c17_elements(kind, els):
+    import pytrs
+    out = []
+    for (tn, td, rn, rd, sn, uid) in els:
+        twp = 'XXXz' if td == 2 else f"{tn}{'ns'[td]}"
+        rge = 'XXXz' if rd == 2 else f"{rn}{'we'[rd]}"
+        sec = 'XX' if sn == 100 else f'{sn:02d}'
+        out.append((uid, twp + rge + sec))
+    if kind == 'tract':
+        # real Tract objects get increasing creation counters: create them in uid order
+        order = sorted(range(len(out)), key=lambda i: out[i][0])
+        objs = [None] * len(out)
+        for i in order:
+            objs[i] = pytrs.Tract('x', trs=out[i][1])
+        return objs
+    return [pytrs.TRS(s) for _, s in out]
+
+
+@replay('c17_sort')
+def c17_sort(kind, key, els, rev_all):
+    import pytrs
+    from props.c17_ref import ref_rank, parse_ref
+    objs = _c17_elements(kind, els)
+    lst = (pytrs.TractList if kind == 'tract' else pytrs.TRSList)(objs)
+    try:
+        lst.custom_sort(key, reverse=rev_all)
+    except Exception as e:  # noqa
+        return True, f'raised {e!r}'
+    got = [objs.index(x) if kind == 'tract' else None for x in lst]
+    ref = list(objs)
+    uid = {id(o): (e[5] if kind == 'tract' else 0) for o, e in zip(objs, els)}
+    for sub, rev in parse_ref(key):
+        ref = sorted(ref, key=lambda o: ref_rank(sub, o, uid[id(o)]), reverse=rev)
+    if rev_all:
+        ref.reverse()
+    same = [id(a) for a in lst] == [id(b) for b in ref] if kind == 'tract' else [a.trs for a in lst] == [b.trs for b in ref]
+    return (not same), f'key={key!r}: got {[x.trs for x in lst]}, reference {[x.trs for x in ref]}'
+
+
+@replay('c17_invalid')
+def c17_invalid(key, tract):
+    import pytrs
+    els = [pytrs.Tract('x', trs='5n5w01'), pytrs.Tract('y', trs='7s6e02')] if tract else ['5n5w01', '7s6e02']
+    lst = (pytrs.TractList if tract else pytrs.TRSList)(els)
+    try:
+        lst.custom_sort(key)
+    except ValueError as e:
+        return False, f'ValueError({e})'
+    except Exception as e:  # noqa
+        return True, f'raised {e!r} instead of ValueError'
+    return True, f'custom_sort({key!r}) returned without raising'
+
+
+# ------------------------------------------------------------------ C18
+C18_TRS_TABLE = ('154n97w14', '154n97w14', '155n97w01', 'XXXz97w14', '154nXXXz14', '154n97wXX', '___z97w14',
+                 '154n___z14', '154n97w__', '___z___z__', 'XXXzXXXzXX')
+
+
+@replay('c18_filter')
+def c18_filter(n, pred, drop, kind, dupmask):
+    import pytrs
+    els = []
+    for i in range(n):
+        if i > 0 and (dupmask >> i) & 1:
+            els.append(els[i - 1])
+        else:
+            els.append(pytrs.Tract('x', trs='1n1w%02d' % i) if kind else pytrs.TRS('1n1w%02d' % i))
+    lst = (pytrs.TractList if kind else pytrs.TRSList)(els)
+    pos = {}
+    sel, rest = [], []
+    for i, e in enumerate(els):
+        j = pos.setdefault(id(e), i)
+        (sel if (pred >> j) & 1 else rest).append(e)
+    out = lst.filter(lambda x: bool((pred >> pos[id(x)]) & 1), drop=drop)
+    bad = [id(x) for x in out] != [id(x) for x in sel] or [id(x) for x in lst] != [id(x) for x in (rest if drop else els)]
+    return bad, f'returned {[x.trs for x in out]}, left {[x.trs for x in lst]}; expected {[x.trs for x in sel]} / {[x.trs for x in (rest if drop else els)]}'
+
+
+@replay('c18_filter_errors')
+def c18_filter_errors(n, e0, e1, e2, twp, rge, sec, undef, drop, kind, table):
+    import pytrs
+    from spec import trs_spec as SP
+    idx = [e0, e1, e2][:n]
+    C18_TRS_TABLE = table
+    els = [pytrs.Tract('d', trs=C18_TRS_TABLE[i]) if kind else pytrs.TRS(C18_TRS_TABLE[i]) for i in idx]
+    exp = []
+    for i in idx:
+        d = SP.decompose(C18_TRS_TABLE[i])
+        is_err = (twp and d['twp_num'] is None and not d['twp_undef']) or (rge and d['rge_num'] is None and not d['rge_undef']) \
+            or (sec and d['sec_num'] is None and not d['sec_undef'])
+        is_undef = (twp and d['twp_undef']) or (rge and d['rge_undef']) or (sec and d['sec_undef'])
+        exp.append(bool(is_err or (undef and is_undef)))
+    lst = (pytrs.TractList if kind else pytrs.TRSList)(els)
+    out = lst.filter_errors(twp=twp, rge=rge, sec=sec, undef=undef, drop=drop)
+    sel = [e for e, x in zip(els, exp) if x]
+    rest = [e for e, x in zip(els, exp) if not x]
+    bad = [id(x) for x in out] != [id(x) for x in sel] or [id(x) for x in lst] != [id(x) for x in (rest if drop else els)]
+    return bad, f'elements {[C18_TRS_TABLE[i] for i in idx]} flags twp={twp} rge={rge} sec={sec} undef={undef} drop={drop}: returned {[x.trs for x in out]}, left {[x.trs for x in lst]}; expected returned {[x.trs for x in sel]}'
+
+
+@replay('c18_filter_dups')
+def c18_filter_dups(n, t0, t1, t2, d0, d1, d2, p0, p1, p2, same, m, drop, kind):
+    import pytrs
+    from props.c18_ref import dup_expected, METHODS, DESCS, TR
+    ts, ds, ps = [t0, t1, t2][:n], [d0, d1, d2][:n], [p0, p1, p2][:n]
+    els = [pytrs.Tract(DESCS[ds[i]], trs=TR[ts[i]], parse_qq=ps[i]) if kind else pytrs.TRS(TR[ts[i]]) for i in range(n)]
+    if same == 1 and n >= 2:
+        els[1] = els[0]
+    elif same == 2 and n >= 3:
+        els[2] = els[0]
+    elif same == 3 and n >= 3:
+        els[2] = els[1]
+    keys = {'trs': [e.trs for e in els]}
+    if kind:
+        keys['desc'] = [f'{e.trs}_{e.pp_desc.strip()}' for e in els]
+        keys['lots_qqs'] = [(e.trs, tuple(sorted(set(e.lots_qqs)))) if e.parse_complete else None for e in els]
+    else:
+        keys['desc'] = [e.trs for e in els]
+        keys['lots_qqs'] = [None for e in els]
+    exp = dup_expected(kind, METHODS[m], els, keys)
+    lst = (pytrs.TractList if kind else pytrs.TRSList)(els)
+    out = lst.filter_duplicates(method=METHODS[m], drop=drop)
+    sel = [e for e, x in zip(els, exp) if x]
+    rest = [e for e, x in zip(els, exp) if not x]
+    bad = [id(x) for x in out] != [id(x) for x in sel] or [id(x) for x in lst] != [id(x) for x in (rest if drop else els)]
+    return bad, f'method={METHODS[m]} elements {[(e.trs, getattr(e, "desc", None)) for e in els]} same={same}: returned idx {[els.index(x) for x in out]}, expected flags {exp}'
+
+
+@replay('c18_group')
+def c18_group(nested, n, oi, a0, a1, a2, a3, b0, b1, b2, b3, c0, c1, c2, c3, aslist):
+    import pytrs
+    ORDERS = ((0,), (1,), (0, 1), (1, 0), (0, 1, 2), (2, 0, 1))
+    ATTRS = ('twp_num', 'sec_num', 'rge_num')
+    A, B, C = [a0, a1, a2, a3][:n], [b0, b1, b2, b3][:n], [c0, c1, c2, c3][:n]
+    els = [pytrs.Tract('d%d' % i, trs=f'{A[i]}n{C[i]}w{B[i]:02d}') for i in range(n)]
+    lst = pytrs.TractList(els)
+    order = ORDERS[oi]
+    attrs = [ATTRS[k] for k in order]
+    arg = attrs if (aslist or len(attrs) > 1) else attrs[0]
+    try:
+        g = lst.group_by_nested(arg) if nested else lst.group_by(arg)
+    except Exception as e:  # noqa
+        return True, f'{"group_by_nested" if nested else "group_by"}({arg}) raised {e!r}'
+    vals = {id(e): tuple((A[i], B[i], C[i])[k] for k in order) for i, e in enumerate(els)}
+    seen = []
+    ok = [True]
+
+    def walk(d, prefix):
+        for k, v in d.items():
+            if isinstance(v, dict):
+                walk(v, prefix + (k,))
+            else:
+                key = (prefix + (k,)) if nested else (k if isinstance(k, tuple) else (k,))
+                for e in v:
+                    if vals[id(e)] != tuple(key):
+                        ok[0] = False
+                    seen.append(id(e))
+    walk(g, ())
+    un = pytrs.TractList.unpack_group(g)
+    bad = (not ok[0]) or sorted(seen) != sorted(id(e) for e in els) or sorted(id(e) for e in un) != sorted(id(e) for e in els)
+    return bad, f'groups: {g}'
+
+
+@replay('c18_construct')
+def c18_construct(kinds, path, trslist):
+    import pytrs
+    items = []
+    for i, kn in enumerate(kinds):
+        items.append({'tract': lambda: pytrs.Tract('NE/4', trs='154n97w%02d' % (i + 1)),
+                      'trs': lambda: pytrs.TRS('154n97w%02d' % (i + 1)), 'str': lambda: '154n97w%02d' % (i + 1),
+                      'int': lambda: 7 + i, 'none': lambda: None,
+                      'plssdesc': lambda: pytrs.PLSSDesc('T154N-R97W Sec %d: NE/4' % (i + 1))}[kn]())
+    ok_kinds = ('tract', 'trs', 'str') if trslist else ('tract',)
+    if path.startswith('from_multiple'):
+        ok_kinds = ok_kinds + ('plssdesc',)
+    all_ok = all(k in ok_kinds for k in kinds)
+    base = pytrs.Tract('W/2', trs='1n1w01')
+    expanded = []
+    for it in items:
+        if isinstance(it, pytrs.PLSSDesc):
+            expanded.extend(list(it.tracts))
+        else:
+            expanded.append(it)
+    cls = pytrs.TRSList if trslist else pytrs.TractList
+    lst = cls([base])
+    raised = None
+    try:
+        if path == 'ctor':
+            lst = cls([base] + items)
+        elif path == 'ctor_container':
+            lst = cls(cls([base] + items))
+        elif path == 'extend':
+            lst.extend(items)
+        elif path == 'iadd':
+            lst += items
+        elif path == 'add':
+            lst = lst + items
+        elif path == 'append':
+            lst.append(items[0])
+        elif path == 'insert':
+            lst.insert(1, items[0])
+        elif path == 'setitem':
+            lst.append(base)
+            lst[1] = items[0]
+        elif path == 'from_multiple':
+            lst = cls.from_multiple(base, *items)
+        else:
+            lst = cls.from_multiple([base], [items])
+    except TypeError as e:
+        raised = f'TypeError({e})'
+    except BaseException as e:  # noqa
+        return True, f'{cls.__name__} via {path} with {kinds} raised {type(e).__name__} (not TypeError)'
+    if not all_ok:
+        return raised is None, f'{cls.__name__} via {path} with element kinds {kinds}: raised={raised}, contents={[getattr(x, "trs", x) for x in lst]}'
+    if raised:
+        return True, f'acceptable elements rejected: {raised}'
+    got = list(lst)
+    bad = len(got) != 1 + len(expanded)
+    for g, it in zip(got[1:], expanded):
+        if trslist:
+            if type(g) is not pytrs.TRS or g.trs != (it if isinstance(it, str) else it.trs):
+                bad = True
+        elif g is not it:
+            bad = True
+    return bad, f'contents={[(type(x).__name__, getattr(x, "trs", x)) for x in got]}'
